@@ -510,7 +510,9 @@ func runGenForced(t *testing.T, g genCfg, x *xplore.Ctx, forceWord, forceExt int
 	case "BuildDirectory":
 		var ch []testutil.DirEntry
 		// incl. siblings that share a stem and differ in the extension only
-		for i, p := range []string{"a", "sub/b", "/abs/c d", "é", "report.pdf", "report.txt", "~after", "~after.d"} {
+		// ... and names that are byte strings, not text (Latin-1, a lone 0xff,
+		// two names differing only in an invalid byte)
+		for i, p := range []string{"a", "sub/b", "/abs/c d", "é", "report.pdf", "report.txt", "~after", "~after.d", "caf\xe9.txt", "caf\xe8.txt", "sub/\xff"} {
 			f := testutil.GenerateFile(t, ls, rnd, 3+i)
 			f.Path = p
 			ch = append(ch, f)
@@ -589,7 +591,7 @@ func configs(quick bool) []genCfg {
 	out = append(out, genCfg{Gen: "GenerateDirectoryFrom", Size: 64, Sharded: true})
 	out = append(out, genCfg{Gen: "BuildDirectory"}, genCfg{Gen: "BuildDirectory", Sharded: true})
 	// paths with empty segments name the same entries as without them
-	for _, p := range []string{"want", "outer/want", "/outer/want/", "outer//want", "", "/"} {
+	for _, p := range []string{"want", "outer/want", "/outer/want/", "outer//want", "", "/", "caf\xe9/want", "outer/\xff"} {
 		for _, ex := range []bool{true, false} {
 			out = append(out, genCfg{Gen: "WrapContent", Path: p, Excl: ex})
 		}
